@@ -245,15 +245,21 @@ def get_model(
         assoc = getattr(lang_classes_factory.ns, assoc_name)()
         setattr(assoc, left_field, [left_asset])
         setattr(assoc, right_field, [right_asset])
-        if not (instance_model.association_exists_between_assets(
-            assoc_name,
-            left_asset,
-            right_asset
-        ) or instance_model.association_exists_between_assets(
-            assoc_name,
-            right_asset,
-            left_asset
-        )):
+        # Every link is returned twice, once from each of its ends. Check for
+        # the link in the orientation of the association's own fields, so
+        # that two assets of the same type that are linked in both directions
+        # keep both links.
+        first_field_name = next(iter(
+            instance_model.get_association_field_names(assoc)))
+        if left_field == first_field_name:
+            already_exists = \
+                instance_model.association_exists_between_assets(
+                    assoc_name, left_asset, right_asset)
+        else:
+            already_exists = \
+                instance_model.association_exists_between_assets(
+                    assoc_name, right_asset, left_asset)
+        if not already_exists:
             instance_model.add_association(assoc)
 
     return instance_model
